@@ -20,6 +20,9 @@ type schedVec struct {
 	N      int      `json:"n"`
 	Retain bool     `json:"retain"`
 	Gates  []string `json:"gates"`
+	MwOn   *bool    `json:"mwon"`   // false: the middleware's level is filtered out by the base handler
+	Nmw    int      `json:"nmw"`    // LogMiddleware instances (default 1)
+	Routes [][]int  `json:"routes"` // per request: the instances it passes, outermost first (default [1])
 	Ops    [][]op   `json:"ops"`
 	Sched  [][]any  `json:"sched"` // [process, gate arrived at]
 	Pred   []struct {
@@ -45,8 +48,15 @@ func (v *schedVec) key() string {
 	for i, o := range v.Ops {
 		beh[i] = opsKey(o)
 	}
-	return fmt.Sprintf("LogMiddleware requests=[%s] retain=%v gates=%s schedule=%s%s",
-		strings.Join(beh, " | "), v.Retain, strings.Join(v.Gates, "+"), b.String(), v.warm)
+	topo := ""
+	if len(v.Routes) > 0 {
+		topo = fmt.Sprintf(" %d middleware instances, routes=%v", max(v.Nmw, 1), v.Routes)
+	}
+	if v.MwOn != nil && !*v.MwOn {
+		topo += " middleware level below the handler's minimum"
+	}
+	return fmt.Sprintf("LogMiddleware requests=[%s]%s retain=%v gates=%s schedule=%s%s",
+		strings.Join(beh, " | "), topo, v.Retain, strings.Join(v.Gates, "+"), b.String(), v.warm)
 }
 
 type schedOutcome struct {
@@ -67,7 +77,13 @@ const stepPatience = 10 * time.Second
 // so that the pools hold used objects - the steady state of a server - when
 // the scheduled requests start; without it they start from empty pools.
 func runSchedule(v *schedVec, ridBase int, warm bool, tr *tracer) (out schedOutcome) {
-	e := &env{s: sched.New(), gates: map[string]bool{}, retain: v.Retain, tr: tr}
+	e := &env{s: sched.New(), gates: map[string]bool{}, retain: v.Retain, tr: tr, mwOff: v.MwOn != nil && !*v.MwOn}
+	routeOf := func(p int) []int {
+		if p < len(v.Routes) && len(v.Routes[p]) > 0 {
+			return v.Routes[p]
+		}
+		return []int{1}
+	}
 	for _, g := range v.Gates {
 		e.gates[g] = true
 	}
@@ -76,7 +92,7 @@ func runSchedule(v *schedVec, ridBase int, warm bool, tr *tracer) (out schedOutc
 	if g := os.Getenv("C20_DROP_GATE"); g != "" {
 		delete(e.gates, g)
 	}
-	mw := e.newMw()
+	mws := e.newMws(max(v.Nmw, 1))
 	sts := make([]*reqState, v.N)
 	names := make([]string, v.N)
 	if tr != nil {
@@ -85,11 +101,16 @@ func runSchedule(v *schedVec, ridBase int, warm bool, tr *tracer) (out schedOutc
 	var warmSt *reqState
 	if warm {
 		st, r := e.newRequest(v.N+1, ridBase+v.N+1, namedBehaviours[3])
+		for p := 0; p < v.N; p++ { // the longest route of the vector
+			if len(routeOf(p)) > len(st.route) {
+				st.route = routeOf(p)
+			}
+		}
 		warmSt = st
 		if tr != nil {
 			tr.begin(st)
 		}
-		mw.Wrap(e.inner(func(*http.Request) *reqState { return st })).ServeHTTP(st.rec, r)
+		through(mws, st.route, e.inner(func(*http.Request) *reqState { return st })).ServeHTTP(st.rec, r)
 		if tr != nil {
 			tr.end(st)
 		}
@@ -98,7 +119,8 @@ func runSchedule(v *schedVec, ridBase int, warm bool, tr *tracer) (out schedOutc
 		st, r := e.newRequest(p+1, ridBase+p+1, v.Ops[p])
 		sts[p] = st
 		names[p] = "r" + strconv.Itoa(p+1)
-		h := mw.Wrap(e.inner(func(*http.Request) *reqState { return st }))
+		st.route = routeOf(p)
+		h := through(mws, st.route, e.inner(func(*http.Request) *reqState { return st }))
 		e.s.Go(names[p], func() {
 			if tr != nil {
 				tr.begin(st)
@@ -256,7 +278,7 @@ func replaySched(args []string) error {
 			v.Retain = retain
 			var t *tracer
 			// Spread the traced schedules over the whole file.
-			if tr != nil && tracedN < traced && n%7 == 1 && retain {
+			if tr != nil && tracedN < traced && n%7 == 1 && retain && len(v.Routes) == 0 && (v.MwOn == nil || *v.MwOn) {
 				t = tr
 				tracedN++
 			}
